@@ -4,7 +4,9 @@ import (
 	"bufio"
 	"fmt"
 	"io"
+	"os"
 	"os/exec"
+	"sync/atomic"
 	"strings"
 	"time"
 )
@@ -36,6 +38,9 @@ type Solver struct {
 	Errors  int
 	Time    time.Duration
 	TimeoutMs int
+	HardMs    int
+	OneShots  int
+	Died      bool // the process died during the current path: its context is lost
 	Trace   io.Writer
 }
 
@@ -99,6 +104,7 @@ func (s *Solver) send(line string) {
 
 // NewPath resets the solver to the empty context.
 func (s *Solver) NewPath() {
+	s.Died = false
 	s.send("(pop 1)")
 	s.send("(push 1)")
 	s.log.Reset()
@@ -217,6 +223,7 @@ func (s *Solver) checkSat() Result {
 			if strings.Contains(line, "solver died") {
 				s.Close()
 				s.start()
+				s.Died = true
 				s.Errors++
 				s.Time += time.Since(t0)
 				s.Queries++
@@ -253,9 +260,85 @@ func (s *Solver) Check(extra *Term) Result {
 	if !extra.IsTrue() {
 		s.send(fmt.Sprintf("(assert %s)", extra.ref()))
 	}
+	t0 := time.Now()
 	r := s.checkSat()
 	s.send("(pop 1)")
+	if r == Unknown && s.HardMs > 0 {
+		r, _ = s.oneShot(extra, nil)
+	}
+	s.dumpSlow(extra, r, time.Since(t0))
 	return r
+}
+
+// oneShot re-solves the current context plus extra in a fresh, non-incremental
+// solver process (full preprocessing; often decides in a fraction of a second
+// what the incremental core does not finish).
+func (s *Solver) oneShot(extra *Term, vars []*Term) (Result, map[*Term]uint64) {
+	t0 := time.Now()
+	var full strings.Builder
+	full.WriteString("(set-option :produce-models true)\n")
+	full.WriteString(s.log.String())
+	if !extra.IsTrue() {
+		full.WriteString("(assert " + extra.ref() + ")\n")
+	}
+	full.WriteString("(check-sat)\n")
+	if len(vars) > 0 {
+		names := make([]string, len(vars))
+		for i, v := range vars {
+			names[i] = v.name
+		}
+		full.WriteString("(get-value (" + strings.Join(names, " ") + "))\n")
+	}
+	cmd := exec.Command(s.Bin, "-in", fmt.Sprintf("-t:%d", s.HardMs))
+	cmd.Stdin = strings.NewReader(full.String())
+	out, _ := cmd.CombinedOutput()
+	txt := string(out)
+	s.Time += time.Since(t0)
+	s.OneShots++
+	r := Unknown
+	first, rest, _ := strings.Cut(strings.TrimSpace(txt), "\n")
+	switch strings.TrimSpace(first) {
+	case "sat":
+		r = Sat
+	case "unsat":
+		r = Unsat
+	}
+	if strings.Contains(txt, "(error") && !(r == Unsat && strings.Contains(txt, "model is not available")) {
+		r = Unknown
+	}
+	// re-classify the verdict in the statistics
+	if r != Unknown {
+		s.NUnk--
+		if r == Sat {
+			s.NSat++
+		} else {
+			s.NUnsat++
+		}
+	}
+	var m map[*Term]uint64
+	if r == Sat && len(vars) > 0 {
+		vals := parseValues(rest)
+		m = map[*Term]uint64{}
+		for _, v := range vars {
+			if x, ok := vals[v.name]; ok {
+				m[v] = x
+			}
+		}
+	}
+	return r, m
+}
+
+var slowDir = os.Getenv("SYMGO_SLOWDIR")
+var slowN int32
+
+func (s *Solver) dumpSlow(extra *Term, r Result, d time.Duration) {
+	if slowDir == "" || d < 3*time.Second {
+		return
+	}
+	n := atomic.AddInt32(&slowN, 1)
+	os.MkdirAll(slowDir, 0o755)
+	os.WriteFile(fmt.Sprintf("%s/q%03d-%s-%.1fs.smt2", slowDir, n, r, d.Seconds()),
+		[]byte(s.Script()+"(assert "+extra.ref()+")\n(check-sat)\n"), 0o644)
 }
 
 // CheckModel decides pc ∧ extra and on sat returns values of vars.
@@ -271,7 +354,15 @@ func (s *Solver) CheckModel(extra *Term, vars []*Term) (Result, map[*Term]uint64
 	if !extra.IsTrue() {
 		s.send(fmt.Sprintf("(assert %s)", extra.ref()))
 	}
+	t0 := time.Now()
 	r := s.checkSat()
+	if r == Unknown && s.HardMs > 0 {
+		s.send("(pop 1)")
+		r2, m2 := s.oneShot(extra, vars)
+		s.dumpSlow(extra, r2, time.Since(t0))
+		return r2, m2
+	}
+	s.dumpSlow(extra, r, time.Since(t0))
 	var m map[*Term]uint64
 	if r == Sat {
 		m = map[*Term]uint64{}
